@@ -77,7 +77,12 @@ def run(ctx):
     body = loops[0].body if loops else []
     ctx.check("R1-pass-feeds-back", where, any(call_attr(c) == "find_raw_conflicts" for s in body for c in calls_in(s)) and any(norm(c.func) == "pass_func" for s in body for c in calls_in(s)), "each pass recomputes the raw conflicts and applies the pass function to them")
     fcp = repo.func(TR, "conflict_pass")
-    ctx.check("R1-pass-feeds-back", f"{TR}:conflict_pass", "CONFLICT_RESOLVERS.get(conflict[0])" in norm(fcp) and "resolver(tt, path_tree, *conflict)" in norm(fcp), "conflict_pass dispatches on the conflict kind through CONFLICT_RESOLVERS")
+    from ..astutil import bound_names, loop_targets
+
+    lt = loop_targets(fcp, lambda t, n: t == "conflicts")
+    cv = lt[0][0] if len(lt) == 1 and len(lt[0]) == 1 else "?"
+    rv = bound_names(fcp, lambda t, n: t == f"CONFLICT_RESOLVERS.get({cv}[0])")
+    ctx.check("R1-pass-feeds-back", f"{TR}:conflict_pass", len(rv) == 1 and f"{rv[0]}(tt, path_tree, *{cv})" in norm(fcp), "conflict_pass dispatches on the conflict kind through CONFLICT_RESOLVERS")
 
     # ---- R3: sibling agreement of the shared conflict finders / path bookkeeping ------------
     from ..rules import clone_agreement
